@@ -44,11 +44,16 @@ def build(V, cfg):
     t.duration = cfg['dur']
     tank = wn.get_node('T')
     x = {}
-    x['min'] = tank._min_level = V.real('min_level', 0, 8)
-    x['max'] = tank._max_level = V.real('max_level', 2, 20)
-    x['init'] = V.real('init_level', 0, 20)
-    V.c.assume(x['min'] + 0.5 <= x['init']) if V.symbolic else None
-    V.c.assume(x['init'] + 0.5 <= x['max']) if V.symbolic else None
+    if cfg.get('concrete_tank'):
+        # C05: the level limits are C06's subject; keeping them and the initial level concrete keeps the queries linear and small
+        tank._min_level, tank._max_level = 1.0, 12.0
+        x['min'], x['max'], x['init'] = 1.0, 12.0, cfg.get('init', 5.0)
+    else:
+        x['min'] = tank._min_level = V.real('min_level', 0, 8)
+        x['max'] = tank._max_level = V.real('max_level', 2, 20)
+        x['init'] = V.real('init_level', 0, 20)
+        V.c.assume(x['min'] + 0.5 <= x['init']) if V.symbolic else None
+        V.c.assume(x['init'] + 0.5 <= x['max']) if V.symbolic else None
     tank._init_level = x['init']
     tank._head = tank._prev_head = x['init'] + tank.elevation
     x['controls'] = []
@@ -113,3 +118,34 @@ def tank_series(res):
 def ri(x):
     t = symx.term(x)
     return t
+
+
+import contextlib
+import wntr.network.controls as _C
+
+
+@contextlib.contextmanager
+def backtrack_lemma():
+    """Assume-guarantee step that keeps the system-level queries tractable: whenever the real TankLevelCondition.evaluate
+    returns a symbolic backtrack b, add the fact  0 <= b <= sim_time - prev_sim_time  to the path.  It is not taken on
+    trust: C05 unit/*/backtrack proves 0 <= b <= (seconds since the crossing) for all inputs, and the crossing lies inside
+    the step because the level is linear in time between two solves (C06 unit/*/euler)."""
+    real_eval = _C.TankLevelCondition.evaluate
+
+    def evaluate(self):
+        r = real_eval(self)
+        b = self._backtrack
+        c = symx.Ctx.cur
+        if c is not None and isinstance(b, Sym):
+            wn = getattr(self._source_obj, '_options', None)
+            # the tank does not know its model; the simulator's clock is published by the harness
+            clock = getattr(c, 'clock', None)
+            if clock is not None:
+                dt = clock.sim_time - clock._prev_sim_time
+                c.assume(z3.And(symx.term(b) >= 0, real(b) <= real(dt)))
+        return r
+    _C.TankLevelCondition.evaluate = evaluate
+    try:
+        yield
+    finally:
+        _C.TankLevelCondition.evaluate = real_eval
